@@ -169,7 +169,7 @@ Print Assumptions shield_delivers_refuted.
    message fallback answers True: the scope swallows, the program goes on, cancelling() = 1 for ever. *)
 Definition ext_lost_witness : prog := PSeq (PScope 1 KMoveOn false (Some 1) (PSleep 2 3)) (PSleep 3 1).
 Theorem external_cancel_propagates_refuted : forall fx,
-  let st := run_steps 2000 (init fx true ext_lost_witness [] [(3, true)] 2) in
+  let st := run_steps 2000 (init fx true ext_lost_witness [] [(3, true, 0)] 2) in
   shield_free ext_lost_witness = true /\ catch_free ext_lost_witness = true /\
   md st = MDone None /\ g_ext st = 1 /\ t_cnt st = 1 /\ In (EvDone 3 2) (trace st).
 Proof. intros []; vm_compute; repeat split; try reflexivity; left; reflexivity. Qed.
